@@ -265,10 +265,10 @@ impl TopicCleanTracker {
     }
 }
 
-impl Drop for TopicCleanTracker {
+impl TopicCleanTracker {
     /// Write out marker changes the background persister has not reached yet, so that a clean
     /// shutdown right after `mark_topic_*` / an append does not lose them.
-    fn drop(&mut self) {
+    pub(crate) fn flush_all(&self) {
         let snapshot: Vec<(String, CleanMarkerRecord)> = match self.states.read() {
             Ok(guard) => guard
                 .iter()
@@ -279,5 +279,11 @@ impl Drop for TopicCleanTracker {
         if let Err(err) = self.store.persist_updates(&snapshot) {
             debug_print!("[clean] persist on drop failed: {}", err);
         }
+    }
+}
+
+impl Drop for TopicCleanTracker {
+    fn drop(&mut self) {
+        self.flush_all();
     }
 }
